@@ -25,13 +25,13 @@ FMT_RULE = ("cases are generated from one splitmix64 state (VERIF_SEED, op, inde
 HOOK_COMMITS = ["94169f7", "6cd8fd8"]
 
 ENGINES = [
-    {"name": "extractor", "path": "extract/", "serves_properties": ["C02", "C03", "C04", "C05", "C06", "C08", "C10", "C11", "C12", "C13"],
+    {"name": "extractor", "path": "extract/", "serves_properties": ["C02", "C03", "C04", "C05", "C06", "C08", "C10", "C11", "C12", "C13", "C17"],
      "kind_free_text": "Go (go/ast): regenerates lean/Carapace/Gen (replacer tables, character sets, format strings, shell lists) from /repo on every run"},
-    {"name": "lean", "path": "lean/", "serves_properties": ["C02", "C03", "C04", "C05", "C06", "C08", "C10", "C11", "C12", "C13"],
+    {"name": "lean", "path": "lean/", "serves_properties": ["C02", "C03", "C04", "C05", "C06", "C08", "C10", "C11", "C12", "C13", "C17"],
      "kind_free_text": "Lean 4 library: Model (transcription of the code), Spec (readers, decoders, oracles), Props (theorems); compiled driver lean/Driver"},
-    {"name": "harness", "path": "harness/", "serves_properties": ["C02", "C03", "C04", "C05", "C06", "C08", "C10", "C11", "C12", "C13"],
+    {"name": "harness", "path": "harness/", "serves_properties": ["C02", "C03", "C04", "C05", "C06", "C08", "C10", "C11", "C12", "C13", "C17"],
      "kind_free_text": "Go module linking the real packages from /repo with -tags verif; generators and in-process execution, one JSON line per case"},
-    {"name": "runner", "path": "check", "serves_properties": ["C02", "C03", "C04", "C05", "C06", "C08", "C10", "C11", "C12", "C13"],
+    {"name": "runner", "path": "check", "serves_properties": ["C02", "C03", "C04", "C05", "C06", "C08", "C10", "C11", "C12", "C13", "C17"],
      "kind_free_text": "python3 (stdlib): orchestration, known-finding classification by input neutralisation, shrinking, evidence"},
 ]
 
@@ -106,6 +106,18 @@ PROPS.update({
             "claimed": True, "engine": "alg",
             "level_text": ("`C13_string_roundtrip`: for every Unicode string s, decoding the JSON string that the model of Go's `appendString` writes for s yields s again (transducer induction; the per-character obligation is decided over all of ASCII and U+2028/2029 and lifted to every other character), plus `json_body_ascii` (an encoded field contains no raw quote / control character, so no text can break out of its field). The model of the export document (`marshalExport`: field order, omitempty, values sorted by value, null for a nil slice) is compared byte for byte with the real document on every generated completion; the oracle requires ActionImport of the real document to yield the same candidates (value, display, description, style, tag, uid) and meta, and any input that is not valid JSON to yield exactly one message and no candidate, never a panic."),
             "level_note": ALG_NOTE + " encoding/json: encoder modelled, decoder trusted."},
+})
+
+
+PROPS.update({
+    "C17": {"modules": ["Carapace.Props.C17"], "ops": [("split", {"quick": 8000, "thorough": 400000})],
+            "rule": "random embedded command lines: 0-3 earlier words (plain, double / single quoted, backslash-escaped blanks, 15% with non-ASCII text), blanks and tabs between them, pipeline / redirection operators for SplitP, a partial last word in one of the three quoting styles; 1-4 candidate values of word characters and blanks; no-space sets; non-trivial = the lexer accepts the text; distinct = distinct input digest",
+            "assumptions": ["the lexer carapace-shlex v1.0.1 is a dependency: its output for the typed text is an input of the model and the re-reading oracle calls the real lexer",
+                            "the redirect branch of SplitP (file completion) is checked for prefix preservation only"],
+            "claimed": True, "engine": "alg",
+            "level_text": ("`C17_unquoted`, `C17_dquote`, `C17_squote`: for every value of word characters and blanks, the text `split` appends in each of the three quoting styles reads back (POSIX-style reader, transducer induction) as exactly the value; `C17_prefix_preserved` (every candidate is the typed text up to the start of the last word followed by the quoted value), `C17_space`; the rune-index-as-byte-offset defect is a decided counterexample and a listed finding. "
+                           "Correspondence: the model of `split` (prefix, Context, quoting, blank) is compared exactly with the real Split/SplitP on generated lines; oracles on the real result: the wrapped action saw exactly the lexer's words, every candidate starts with the typed prefix byte for byte, re-reading every candidate with the real lexer gives the earlier words followed by the value, a blank follows iff no-space does not apply."),
+            "level_note": ALG_NOTE + " carapace-shlex is used as is (dependency)."},
 })
 
 
